@@ -11,9 +11,9 @@ git diff > $OUT/patch.diff
 [ -s $OUT/patch.diff ] || { echo "empty patch"; exit 2; }
 cp demo.py $OUT/demo.py 2>/dev/null; cp MUTANT.md $OUT/MUTANT.md 2>/dev/null
 echo "== demo with change"; (cd $WT && PYTHONPATH=$WT/src timeout 600 /venv/bin/python demo.py > $OUT/demo_with.txt 2>&1; echo "exit $?" | tee -a $OUT/demo_with.txt); tail -3 $OUT/demo_with.txt
-git stash -q
+git apply -R $OUT/patch.diff || { echo "cannot revert patch"; exit 2; }   # (git stash is shared between worktrees)
 echo "== demo without change"; (cd $WT && PYTHONPATH=$WT/src timeout 600 /venv/bin/python demo.py > $OUT/demo_without.txt 2>&1; echo "exit $?" | tee -a $OUT/demo_without.txt); tail -2 $OUT/demo_without.txt
-git stash pop -q
+git apply $OUT/patch.diff || { echo "cannot re-apply patch"; exit 2; }
 echo "== suite with change"; (cd $WT && PYTHONPATH=$WT/src timeout 1800 /venv/bin/python -m pytest -q -p no:cacheprovider -n 8 tests 2>&1 | tail -1 | tee $OUT/suite.txt)
 # only apply if /repo is clean
 [ -z "$(git -C /repo status --porcelain)" ] || { echo "/repo dirty"; exit 2; }
